@@ -122,23 +122,27 @@ def momTarget (e : Exact) (env : Env) (name : String) : Option Target := do
   let big := env.kappa > kappaLimit
   let fl := ratToFloat
   let parseP (pfx : String) : Option Nat := (name.drop pfx.length).toString.toNat?
+  -- zero spread (constant data): the natural scale of the spread statistics is 0; through merges the means of
+  -- equal chunks may differ by the mean's own envelope `zb = 12·n·u·M`, so a p-th order statistic may be as large as
+  -- zb^p (add-only constant streams are exactly 0: that is property C16, asserted separately by the harness)
+  let zb : Float := 12 * env.nu_ * env.maxAbs
   if n == 0 then none else
   match name with
   | "mean" => pure (rationalTarget e.mean (12 * env.nu_ * (env.sigma + env.maxAbs)))
   | "popvar" =>
-      if zeroSpread then pure (rationalTarget 0 0) else if big then pure skipTarget else
+      if zeroSpread then pure (rationalTarget 0 (zb * zb)) else if big then pure skipTarget else
       pure (rationalTarget (e.m 2) (8 * env.nku * fl (e.m 2)))
   | "samplevar" =>
       if n < 2 then none else
-      if zeroSpread then pure (rationalTarget 0 0) else if big then pure skipTarget else
+      if zeroSpread then pure (rationalTarget 0 (2 * zb * zb)) else if big then pure skipTarget else
       let v := e.sumPow 2 / (nr - 1)
       pure (rationalTarget v (8 * env.nku * fl v))
   | "varmean" =>
-      if n < 2 || zeroSpread then pure (rationalTarget 0 0) else if big then pure skipTarget else
+      if n < 2 then pure (rationalTarget 0 0) else if zeroSpread then pure (rationalTarget 0 (zb * zb)) else if big then pure skipTarget else
       let v := e.sumPow 2 / (nr - 1) / nr
       pure (rationalTarget v (8 * env.nku * fl v))
   | "error" =>
-      if n < 2 || zeroSpread then pure (rationalTarget 0 0) else if big then pure skipTarget else
+      if n < 2 then pure (rationalTarget 0 0) else if zeroSpread then pure (rationalTarget 0 zb) else if big then pure skipTarget else
       let v := Float.sqrt (fl (e.sumPow 2 / (nr - 1) / nr))
       pure (irrationalTarget v (8 * env.nku * v))
   | "skew" =>
@@ -165,7 +169,7 @@ def momTarget (e : Exact) (env : Env) (name : String) : Option Target := do
     if name.startsWith "cm" then
       let p ← parseP "cm"
       if p == 0 then pure (rationalTarget 1 0) else if p == 1 then pure (rationalTarget 0 0) else
-      if zeroSpread then pure (rationalTarget 0 0) else if big then pure skipTarget else
+      if zeroSpread then pure (rationalTarget 0 (Float.pow (2 * zb) (Float.ofNat p))) else if big then pure skipTarget else
       pure (rationalTarget (e.m p) (2 * Float.ofNat (p * p) * env.nku * fl (e.nu p)))
     else if name.startsWith "sm" then
       let p ← parseP "sm"
@@ -262,12 +266,12 @@ def oraclePair (data stats : List String) : Option (Verdict × Nat × Nat) := do
     | "samplevar_x" => side ex envx "samplevar"
     | "samplevar_y" => side ey envy "samplevar"
     | "popcov" =>
-        if degenerate then pure (judge name (rationalTarget (sxy / nr) 0) w) else
+        if degenerate then pure (judge name (rationalTarget (sxy / nr) (144 * envx.nu_ * envx.maxAbs * envy.nu_ * envy.maxAbs)) w) else
         if big then pure .skipped else
         pure (judge name (rationalTarget (sxy / nr) (8 * nku * gm / envx.nf)) w)
     | "samplecov" =>
         if n < 2 then none else
-        if degenerate then pure (judge name (rationalTarget (sxy / (nr - 1)) 0) w) else
+        if degenerate then pure (judge name (rationalTarget (sxy / (nr - 1)) (288 * envx.nu_ * envx.maxAbs * envy.nu_ * envy.maxAbs)) w) else
         if big then pure .skipped else
         pure (judge name (rationalTarget (sxy / (nr - 1)) (8 * nku * gm / (envx.nf - 1))) w)
     | "pearson" =>
@@ -307,12 +311,12 @@ def oracleWeighted (data stats : List String) : Option (Verdict × Nat × Nat) :
     | "samplevar" => (momTarget e env "samplevar").map fun t => judge name t w
     | "varwmean" =>
         if n < 2 then none else
-        if zeroSpread then pure (judge name (rationalTarget 0 0) w) else if big then pure .skipped else
+        if zeroSpread then pure (judge name (rationalTarget 0 (2 * (12 * env.nu_ * env.maxAbs) * (12 * env.nu_ * env.maxAbs))) w) else if big then pure .skipped else
         let v := e.sumPow 2 / (nr - 1) * sww / (sw * sw)
         pure (judge name (rationalTarget v (16 * env.nku * fl v)) w)
     | "werror" =>
         if n < 2 then none else
-        if zeroSpread then pure (judge name (rationalTarget 0 0) w) else if big then pure .skipped else
+        if zeroSpread then pure (judge name (rationalTarget 0 (2 * 12 * env.nu_ * env.maxAbs)) w) else if big then pure .skipped else
         let v := Float.sqrt (fl (e.sumPow 2 / (nr - 1) * sww / (sw * sw)))
         pure (judge name (irrationalTarget v (16 * env.nku * v)) w)
     | _ => none
